@@ -3,8 +3,10 @@ pattern memory, monitors every command) and the reference model (caller side: pr
 ARGUMENTS of a driver call which registers may hold which values afterwards).  The two never share code
 beyond the limits table, which is copied from the property text (not from the driver's constants)."""
 from __future__ import annotations
+import hashlib
 import re
 import traceback
+import numpy as np
 
 # ---------------------------------------------------------------- limits (property text)
 FREQ = (1.5e9, 32e9)
@@ -25,6 +27,15 @@ def bg(ch, addr):
     x ^= x >> 13
     x = (x * 1274126177) & 0xFFFFFFFF
     return (x >> 11) & 1
+
+
+def bgv(ch, addr, n):
+    """bg() for addresses addr..addr+n-1 as a uint8 array"""
+    a = np.arange(addr, addr + n, dtype=np.uint64)
+    x = (a * np.uint64(2654435761) + np.uint64(ch * 40503 + 12345)) & np.uint64(0xFFFFFFFF)
+    x ^= x >> np.uint64(13)
+    x = (x * np.uint64(1274126177)) & np.uint64(0xFFFFFFFF)
+    return ((x >> np.uint64(11)) & np.uint64(1)).astype(np.uint8)
 
 
 DEFAULTS = {'leng': 2, 'type': 'DATA', 'plen': 7, 'bsh': 0, 'skew': 0.0, 'volt': 1.0, 'offs': 0.0, 'outp': 0}
@@ -73,7 +84,7 @@ class Fake:
     def __init__(self):
         self.freq = 1e10
         self.reg = {c: dict(DEFAULTS) for c in range(1, NCH + 1)}
-        self.mem = {c: {} for c in range(1, NCH + 1)}      # overlay over bg()
+        self.mem = {c: [] for c in range(1, NCH + 1)}      # write log [(addr, uint8 array)] overlaid on bg()
         self.log = []          # every command string, in order
         self.parsed = []       # (kind, ch, fields) for every command
         self.issues = []       # (key, msg) found by the command monitor
@@ -92,19 +103,39 @@ class Fake:
         f = Fake()
         f.freq = self.freq
         f.reg = {c: dict(r) for c, r in self.reg.items()}
-        f.mem = {c: dict(m) for c, m in self.mem.items()}
+        f.mem = {c: list(m) for c, m in self.mem.items()}
         return f
 
-    def bit(self, ch, addr):
-        m = self.mem[ch]
-        return m[addr] if addr in m else bg(ch, addr)
-
     def content(self, ch, addr, n):
-        return [self.bit(ch, a) for a in range(addr, addr + n)]
+        """effective memory content of addresses addr..addr+n-1 (uint8 array)"""
+        a = bgv(ch, addr, n)
+        for p, seg in self.mem[ch]:
+            lo, hi = max(p, addr), min(p + seg.size, addr + n)
+            if lo < hi:
+                a[lo - addr:hi - addr] = seg[lo - p:hi - p]
+        return a
+
+    def extent(self, ch):
+        m = self.mem[ch]
+        if not m:
+            return None
+        return min(p for p, _ in m), max(p + s.size for p, s in m)
+
+    def writes(self):
+        return sum(len(m) for m in self.mem.values())
+
+    def memkey(self, ch):
+        """canonical form of the memory: the addresses whose content differs from the background"""
+        e = self.extent(ch)
+        if e is None:
+            return b''
+        lo, hi = e
+        d = np.nonzero(self.content(ch, lo, hi - lo) != bgv(ch, lo, hi - lo))[0] + lo
+        return d.astype(np.int64).tobytes()
 
     def state(self):
         regs = tuple((c,) + tuple(sorted(self.reg[c].items())) for c in sorted(self.reg))
-        mem = tuple((c, tuple(sorted((a, b) for a, b in self.mem[c].items() if b != bg(c, a)))) for c in sorted(self.mem))
+        mem = tuple(hashlib.sha256(self.memkey(c)).hexdigest()[:20] for c in sorted(self.mem))
         return (repr(self.freq), regs, mem)
 
     def flag(self, key, msg):
@@ -212,10 +243,8 @@ class Fake:
             if p < 1 or p + max(n, 1) - 1 > MEM:
                 self.flag('set_data:address-out-of-memory', f'{short!r}: addresses {p}..{p + n - 1} outside 1..{MEM}')
                 ok = False
-            if ok:
-                mm = self.mem[ch]
-                for i, c in enumerate(payload):
-                    mm[p + i] = 1 if c == '1' else 0
+            if ok and payload:
+                self.mem[ch].append((p, np.frombuffer(payload.encode(), dtype=np.uint8) - 48))
             return '\n'
         if kind == 'data?':
             p, n = int(g[1]), int(g[2])
@@ -227,7 +256,7 @@ class Fake:
             if n < 0 or p < 1 or p + n - 1 > MEM:
                 self.flag('get_data:address-out-of-memory', f'{short!r}: addresses {p}..{p + n - 1} outside 1..{MEM}')
                 return '\n\n'
-            s = ''.join('1' if b else '0' for b in self.content(ch, p, n))
+            s = (self.content(ch, p, n) + 48).astype(np.uint8).tobytes().decode()
             return f'#{len(str(n))}{n}{s}\n'
         raise RuntimeError(kind)
 
